@@ -17,6 +17,7 @@ import TypedpyModel.Lemmas.SchemaToCode
 import TypedpyModel.Lemmas.SchemaEmit
 import TypedpyModel.Lemmas.DefOrder
 import TypedpyModel.Lemmas.TextClean
+import TypedpyModel.Lemmas.Nesting
 import TypedpyModel.Lemmas.CodeExact
 namespace Typedpy.C09
 open Typedpy Typedpy.PyLex
@@ -349,19 +350,31 @@ theorem emitted_module_clean (X : Ora) (O : EOra) (hO : OraOk O) (write : Bool) 
     textClean (moduleText O write defs main) = true :=
   moduleText_clean X O write defs main (fun c hc => classOk_of_src X O hO c (hd c hc)) (classOk_of_src X O hO main hm)
 
+/-- the bracket nesting of the emitted module's tokens is the nesting of its expression trees -/
+theorem emitted_module_nesting (O : EOra) (defs : List ClassSrc) (main : ClassSrc) :
+    maxNest 0 0 (modToks O defs main) = modDepth O (defs ++ [main]) :=
+  maxNest_module O defs main
+
+/-- the nesting of every printed field expression is bounded by the nesting of its schema and default -/
+theorem field_code_nesting (O : EOra) (s : Schema) (d : Option PyVal) : edepth (schemaExpr O s d) ≤ sdepth s d :=
+  edepth_schemaExpr O s d
+
 /-- PARTIAL: the emitted module is accepted by the recogniser for ALL definition lists and main
-    schemas (any depth, any strings in patterns / enums / defaults / required / descriptions) with
-    the decidable exclusions `classSrcOk` (class, `$ref` and property names are identifiers (ASCII letters / digits / `_`, and non-ASCII characters
-    for which the oracle `X` = `str.isidentifier` says so) that are not keywords — property names also not `__debug__` and distinct as keyword arguments;
-    enum members and defaults are JSON values; no NUL in a description) and `nestOk` (bracket
-    nesting within CPython's 200 levels); `OraOk`: `repr(float)` answers with decimal literals -/
+    schemas (any strings in patterns / enums / defaults / required / descriptions) with the decidable,
+    schema-level exclusions `classSrcOk` (class, `$ref` and property names are identifiers (ASCII letters /
+    digits / `_`, and non-ASCII characters for which the oracle `X` = `str.isidentifier` says so) that are not
+    keywords — property names also not `__debug__` and distinct as keyword arguments; enum members and
+    defaults are JSON values) and `schemaDepthOk` (the schemas and their JSON values nest shallowly enough for
+    CPython's limit of 200 open brackets); `OraOk`: `repr(float)` answers with decimal literals -/
 theorem emitted_module_accepted_partial (X : Ora) (O : EOra) (hO : OraOk O) (write : Bool)
     (defs : List ClassSrc) (main : ClassSrc)
     (hd : ∀ c ∈ defs, classSrcOk X c = true) (hm : classSrcOk X main = true)
-    (hnest : nestOk X (moduleText O write defs main) = true) :
+    (hdep : schemaDepthOk defs main = true) :
     recognise X (moduleText O write defs main) = .accept :=
   recognise_module X O write defs main (fun c hc => classOk_of_src X O hO c (hd c hc))
-    (classOk_of_src X O hO main hm) (emitted_module_clean X O hO write defs main hd hm) hnest
+    (classOk_of_src X O hO main hm) (emitted_module_clean X O hO write defs main hd hm)
+    (nestOk_of_depth X O write defs main (fun c hc => classOk_of_src X O hO c (hd c hc))
+      (classOk_of_src X O hO main hm) (depthOk_of_schema O defs main hdep))
 
 /-- a concrete oracle for the examples: every non-ASCII character printable, every float `1.5` -/
 def exOra : EOra := ⟨fun _ => true, fun _ => ['1', '.', '5']⟩
@@ -417,7 +430,7 @@ set_option maxRecDepth 100000 in
 theorem accepted_example :
     classSrcOk Ora.ascii exDef = true ∧ classSrcOk Ora.ascii exMain = true ∧
     textClean (moduleText exOra true [exDef] exMain) = true ∧
-    nestOk Ora.ascii (moduleText exOra true [exDef] exMain) = true ∧
+    schemaDepthOk [exDef] exMain = true ∧
     recognise Ora.ascii (moduleText exOra true [exDef] exMain) = .accept := by decide
 
 /-! ## order of the definitions (`exec:forward-ref`) -/
